@@ -1,8 +1,8 @@
-(* C08 — bytes gained by growing a stream read as zero, whatever was there before.  Statements are printed by Check below and compared with C08.expected.  PARTIAL: at the handle level set_len refines 'truncate or pad with zeros' given the store's resize contract; at the chain level a zero fill overwrites exactly the requested range whatever the sectors held and leaves other chains alone.  That the store's resize (Store.v, with the repaired zero_fill for cases 1a/2b/3c) meets the contract for every history — including shrink-then-grow and reuse of freed mini sectors — is checked on the real crate against a byte vector for every buffer size, and by lockstep with the model, which keeps stale sector bytes. *)
+(* C08 — bytes gained by growing a stream read as zero, whatever was there before.  Statements are printed by Check below and compared with C08.expected.  PARTIAL: at the handle level set_len refines 'truncate or pad with zeros' given the store's resize contract; Store.resize itself is proved to zero every gained byte, with no hypothesis on what the sectors held before, for large streams (growth within the last sector, into reused sectors, by appending; shrink-then-grow) and for small streams that need no new mini sector; other streams are untouched.  NOT proved: growth of a small stream that allocates new mini sectors, and the mini <-> regular migrations; those, and whole histories, are checked on the real crate against a byte vector for every buffer size, and by lockstep with the model, which keeps stale sector bytes. *)
 From Cfb.model Require Import Base Names DirEnt State Alloc Dir Mini Store Handle Open Cfb.
 From Cfb.gen Require Import Consts.
 From Cfb.spec Require Import VecSpec.
-From Cfb.proofs Require Import HandleProofs ChainProofs.
+From Cfb.proofs Require Import HandleProofs ChainProofs StoreProofs StoreMiniProofs.
 Set Printing Width 110.
 
 (* set_len_post: the abstract vector becomes takeN n A ++ repeatN 0 (n - lenN A), cursor clamped *)
@@ -28,3 +28,63 @@ Theorem C08_other_chains_untouched : ltac:(let t := type of chain_write_frame_ot
 Proof. exact chain_write_frame_other. Qed.
 Check C08_other_chains_untouched.
 Print Assumptions C08_other_chains_untouched.
+
+(* Store.resize on a large stream growing inside its last sector: content becomes V ++ zeros with NO hypothesis on the old tail bytes; other large streams untouched *)
+Theorem C08_large_stream_grow_reads_zero : ltac:(let t := type of resize_big_grow_zero_within_chain in exact t).
+Proof. exact resize_big_grow_zero_within_chain. Qed.
+Check C08_large_stream_grow_reads_zero.
+Print Assumptions C08_large_stream_grow_reads_zero.
+
+(* growth into sectors taken from the free list: all gained bytes zero *)
+Theorem C08_large_stream_grow_into_reused_sectors_reads_zero : ltac:(let t := type of resize_big_grow_zero_new_sectors in exact t).
+Proof. exact resize_big_grow_zero_new_sectors. Qed.
+Check C08_large_stream_grow_into_reused_sectors_reads_zero.
+Print Assumptions C08_large_stream_grow_into_reused_sectors_reads_zero.
+
+(* growth by appending sectors to the file: all gained bytes zero *)
+Theorem C08_large_stream_grow_by_appending_reads_zero : ltac:(let t := type of resize_big_grow_zero_append in exact t).
+Proof. exact resize_big_grow_zero_append. Qed.
+Check C08_large_stream_grow_by_appending_reads_zero.
+Print Assumptions C08_large_stream_grow_by_appending_reads_zero.
+
+(* the repaired defect's scenario for large streams: shrink to m then grow back reads takeN m V ++ zeros, also when sectors are released and come back from the free stack *)
+Theorem C08_large_stream_shrink_then_grow : ltac:(let t := type of shrink_then_grow_zero_general in exact t).
+Proof. exact shrink_then_grow_zero_general. Qed.
+Check C08_large_stream_shrink_then_grow.
+Print Assumptions C08_large_stream_shrink_then_grow.
+
+(* witness that the explicit zero fill is necessary: 5000 -> 4700 -> 5000 without it reads 300 stale bytes *)
+Theorem C08_without_zero_fill_stale_bytes_show : ltac:(let t := type of StoreExamples.without_zero_fill_stale in exact t).
+Proof. exact StoreExamples.without_zero_fill_stale. Qed.
+Check C08_without_zero_fill_stale_bytes_show.
+Print Assumptions C08_without_zero_fill_stale_bytes_show.
+
+(* Store.resize on a small (mini-stream) stream growing inside its last mini sector: V ++ zeros with NO hypothesis on the old bytes of the mini sector *)
+Theorem C08_small_stream_grow_reads_zero : ltac:(let t := type of resize_small_grow_zero_within_chain in exact t).
+Proof. exact resize_small_grow_zero_within_chain. Qed.
+Check C08_small_stream_grow_reads_zero.
+Print Assumptions C08_small_stream_grow_reads_zero.
+
+(* 100 -> 70 -> 100 style scenario for small streams *)
+Theorem C08_small_stream_shrink_then_grow : ltac:(let t := type of small_shrink_then_grow_zero in exact t).
+Proof. exact small_shrink_then_grow_zero. Qed.
+Check C08_small_stream_shrink_then_grow.
+Print Assumptions C08_small_stream_shrink_then_grow.
+
+(* writes and resizes of one small stream leave every other small stream's content unchanged *)
+Theorem C08_small_stream_writes_do_not_touch_other_streams : ltac:(let t := type of small_write_frame_other in exact t).
+Proof. exact small_write_frame_other. Qed.
+Check C08_small_stream_writes_do_not_touch_other_streams.
+Print Assumptions C08_small_stream_writes_do_not_touch_other_streams.
+
+(* reads return exactly the represented bytes *)
+Theorem C08_large_stream_read_back : ltac:(let t := type of read_data_big in exact t).
+Proof. exact read_data_big. Qed.
+Check C08_large_stream_read_back.
+Print Assumptions C08_large_stream_read_back.
+
+(* same for small streams *)
+Theorem C08_small_stream_read_back : ltac:(let t := type of read_data_small in exact t).
+Proof. exact read_data_small. Qed.
+Check C08_small_stream_read_back.
+Print Assumptions C08_small_stream_read_back.
